@@ -425,3 +425,26 @@ example : ((SQ.init 0).run [.batch 1, .batch 0]).dumped = 1 := by decide
 example : ((SQ.init 4).run [.batch 2, .batch 2, .batch 1]).chan = [1] := by decide
 example : ((SQ.init 4).run [.batch 2, .batch 2, .batch 1]).dumped = 4 := by decide
 example : ((SQ.init 4).run [.connectOk, .batch 2, .take, .initShutdown, .closeMessages, .sendDone true false, .take]).worker = .exited := by decide
+
+/-! ## The queue size is the agent's to choose, the allocation is not -/
+
+/-- **C16 (all queue sizes: what is allocated is bounded).**  Whatever size an agent announces (a `uint64` taken from the
+App message), the queue `newTraceObserverWithWorker` makes has at most `maxQueueSize` slots — the bound regenerated from
+trace_observer.go, which must exist — so no announced size can make the worker crash (`makechan: size out of range`) or
+exhaust its memory when the run's queue is created.  All theorems above hold for the effective size, as for any size. -/
+theorem C16_queue_allocation_bounded (configured : Nat) :
+    Gen.SpanQueue.maxQueueSize ≠ 0 ∧ effectiveQueueSize configured ≤ Gen.SpanQueue.maxQueueSize ∧
+    (configured ≤ Gen.SpanQueue.maxQueueSize → effectiveQueueSize configured = configured) := by
+  have h0 : Gen.SpanQueue.maxQueueSize ≠ 0 := by decide
+  refine ⟨h0, ?_, ?_⟩
+  · unfold effectiveQueueSize
+    split
+    · exact Nat.le_refl _
+    · rename_i h
+      have : ¬ configured > Gen.SpanQueue.maxQueueSize := fun hc => h ⟨h0, hc⟩
+      omega
+  · intro h
+    unfold effectiveQueueSize
+    split
+    · rename_i h2; omega
+    · rfl
